@@ -13,6 +13,7 @@ import (
 	"time"
 
 	"github.com/mimecast/dtail/internal/clients"
+	"github.com/mimecast/dtail/internal/config"
 	"github.com/mimecast/dtail/internal/discovery"
 	"github.com/mimecast/dtail/internal/source"
 	"github.com/mimecast/dtail/verif/explore"
@@ -217,6 +218,59 @@ func c18Reconnect(c *Ctx) {
 	}
 }
 
+// c18ConfiguredPort: entries without a port are contacted at the CONFIGURED port (--port / Common.SSHPort), entries
+// with a port at their own; nobody else is contacted (in particular not the built-in default port).
+func c18ConfiguredPort(c *Ctx) {
+	conf := newDropListener() // the configured port
+	own := newDropListener()  // an entry with its own port
+	var deflt *dropListener   // the built-in default port, if it is free on this machine
+	if l, err := net.Listen("tcp", fmt.Sprintf("127.0.0.1:%d", config.DefaultSSHPort)); err == nil {
+		deflt = &dropListener{l: l}
+		go func() {
+			for {
+				cn, err := l.Accept()
+				if err != nil {
+					return
+				}
+				atomic.AddInt32(&deflt.n, 1)
+				cn.Close()
+			}
+		}()
+	}
+	entries := []string{"127.0.0.1", fmt.Sprintf("127.0.0.1:%d", own.port())}
+	var startErr string
+	res := vrt.Run(vrt.Config{MaxSteps: 5000000, Horizon: 3 * time.Minute}, func() {
+		args := DefaultArgs()
+		args.NoColor = true
+		args.Quiet = true
+		args.LogLevel = "error"
+		args.What = "/nonexistent/x.log"
+		args.ServersStr = strings.Join(entries, ",")
+		args.SSHPort = conf.port()
+		args.SSHAuthMethods = []ssh.AuthMethod{ssh.Password("x")}
+		env := StartEnv(source.Client, &args, nil)
+		cl, err := clients.NewCatClient(args)
+		if err != nil {
+			startErr = err.Error()
+			return
+		}
+		cl.Start(env.Ctx, vrt.Make[string]("statsCh", 0))
+	})
+	c.Count("configured-port")
+	nd := 0
+	if deflt != nil {
+		nd = deflt.contacts()
+		deflt.l.Close()
+	}
+	nc, no := conf.contacts(), own.contacts()
+	conf.l.Close()
+	own.l.Close()
+	if startErr != "" || res.Fail != nil || nc != 1 || no != 1 || nd != 0 {
+		c.Violation("entry-without-port-not-contacted-at-the-configured-port", fmt.Sprintf("dcat --port %d --servers %s: contacts at the configured port %d (want 1), at the entry's own port %d (want 1), at the built-in default port %d: %d (want 0) %s %v",
+			conf.port(), strings.Join(entries, ","), nc, no, config.DefaultSSHPort, nd, startErr, res.Fail), entries)
+	}
+}
+
 // c18Thousands: a server file / comma list with thousands of entries (duplicates scattered, host:port forms); one
 // execution each (the shuffle takes its first answer everywhere).
 func c18Thousands(c *Ctx) {
@@ -339,7 +393,7 @@ func init() {
 		Level: "model_checking",
 		Rule: "all server lists of length 1..5 (quick) / 1..6 (thorough) over {a, b, c:2222, a.dom} (so all duplicate patterns), given as comma list, as server file (newline-terminated, without final newline, CRLF, reached through a symbolic link and through a chain of two) and through a discovery " +
 			"module with the filters none, /a/, /^c/, /x/, /./; every random number the shuffle draws is an environment choice and ALL answer sequences are explored " +
-			"(complete tree, no bound); oracle: returned multiset == distinct entries matching the filter; plus, end to end, a real dcat over every list of <=3 entries (every entry an in-process server): each distinct server delivers the file exactly once; and a following client whose connections are all dropped re-connects only to the listed host:port entries (real TCP listeners, virtual time); a server file and a comma list of 3000 entries (2500 distinct); and a dcat over more unreachable servers than it connects to at a time (CPUs-1, +1, +5 entries, one connection per CPU) contacts each exactly once and ends; distinct = distinct (case, returned order) pairs",
+			"(complete tree, no bound); oracle: returned multiset == distinct entries matching the filter; plus, end to end, a real dcat over every list of <=3 entries (every entry an in-process server): each distinct server delivers the file exactly once; and a following client whose connections are all dropped re-connects only to the listed host:port entries (real TCP listeners, virtual time); a server file and a comma list of 3000 entries (2500 distinct); entries with and without a port under a non-default configured port; and a dcat over more unreachable servers than it connects to at a time (CPUs-1, +1, +5 entries, one connection per CPU) contacts each exactly once and ends; distinct = distinct (case, returned order) pairs",
 		Assumptions: []string{"math/rand is replaced by an explorer-owned choice; regexp is trusted"},
 		Run: func(c *Ctx) {
 			n := 5
@@ -380,6 +434,7 @@ func init() {
 				c18Reconnect(c)
 				c18ManyUnreachable(c)
 				c18Thousands(c)
+				c18ConfiguredPort(c)
 			}
 			// end to end: the set of servers a real client actually contacts (host names without port;
 			// the serverless connector gives every entry its own in-process server named after the entry)
